@@ -28,6 +28,11 @@ struct Book {
     done: Vec<usize>,
     trace: Vec<String>,
     illegal: Vec<String>,
+    /// the holder has committed: its transaction is over for the database (SQLite releases the write lock at COMMIT)
+    /// although the transaction object still exists until its `end`
+    after_commit: Option<usize>,
+    /// `begun` events of threads that got the lock between the holder's COMMIT and its `end`; written after that `end`
+    deferred: Vec<String>,
 }
 struct Ctl {
     m: Mutex<Book>,
@@ -74,15 +79,28 @@ impl Storage for Sched {
         {
             let mut b = self.ctl.m.lock().unwrap();
             b.in_begin.retain(|x| *x != tid);
+            let mut defer = false;
             if let Some(o) = b.open {
                 if o != tid {
-                    let m = format!("t{tid} began a transaction while t{o} holds one");
-                    b.illegal.push(m);
+                    if b.after_commit == Some(o) {
+                        // not a violation of exclusion: the holder's transaction ended with its COMMIT; only its
+                        // `end` (dropping the object) is still to come. The event is written after that `end`, so
+                        // that the trace reads as the model's steps (commit; end; begin).
+                        defer = true;
+                    } else {
+                        let m = format!("t{tid} began a transaction while t{o} holds one");
+                        b.illegal.push(m);
+                    }
                 }
             }
             if t.is_ok() {
-                b.open = Some(tid);
-                b.trace.push(format!("{tid} begun"));
+                if defer {
+                    b.deferred.push(format!("{tid} begun"));
+                    b.deferred.push(format!("open:{tid}"));
+                } else {
+                    b.open = Some(tid);
+                    b.trace.push(format!("{tid} begun"));
+                }
             } else {
                 b.trace.push(format!("{tid} begin-failed"));
             }
@@ -105,7 +123,18 @@ impl StorageTxn for STxn<'_> {
     fn get_version_by_parent(&mut self, p: Uuid) -> anyhow::Result<Option<Version>> { fwd!(self, "call:get_version_by_parent", self.inner.as_mut().unwrap().get_version_by_parent(p)) }
     fn get_version(&mut self, v: Uuid) -> anyhow::Result<Option<Version>> { fwd!(self, "call:get_version", self.inner.as_mut().unwrap().get_version(v)) }
     fn add_version(&mut self, v: Uuid, p: Uuid, h: Vec<u8>) -> anyhow::Result<()> { fwd!(self, "call:add_version", self.inner.as_mut().unwrap().add_version(v, p, h)) }
-    fn commit(&mut self) -> anyhow::Result<()> { fwd!(self, "call:commit", self.inner.as_mut().unwrap().commit()) }
+    fn commit(&mut self) -> anyhow::Result<()> {
+        self.ctl.yield_at("call:commit");
+        let r = self.inner.as_mut().unwrap().commit();
+        if r.is_ok() {
+            let tid = TID.with(|t| t.get());
+            let mut b = self.ctl.m.lock().unwrap();
+            if b.open == Some(tid) {
+                b.after_commit = Some(tid);
+            }
+        }
+        r
+    }
 }
 impl Drop for STxn<'_> {
     fn drop(&mut self) {
@@ -113,13 +142,31 @@ impl Drop for STxn<'_> {
         if tid != usize::MAX {
             self.ctl.yield_at("end");
         }
+        // The book is cleared BEFORE the real lock is released: a thread waiting inside the real `txn()` (probe mode)
+        // acquires the lock the instant the inner transaction is dropped and then consults the book; clearing it
+        // afterwards made that thread see a stale "open" entry - a false "not exclusive" (seen in the thorough tier).
+        // While the inner transaction is alive the real lock is still held, so no legitimate begin can slip in here.
+        {
+            let mut b = self.ctl.m.lock().unwrap();
+            if b.open == Some(tid) {
+                b.open = None;
+            }
+            if b.after_commit == Some(tid) {
+                b.after_commit = None;
+            }
+            // begins that happened between this transaction's COMMIT and its end
+            let d: Vec<String> = b.deferred.drain(..).collect();
+            for e in d {
+                if let Some(t) = e.strip_prefix("open:") {
+                    b.open = t.parse().ok();
+                } else {
+                    b.trace.push(e);
+                }
+            }
+        }
         // an in-memory transaction that wrote without committing panics on drop: contain it
         let inner = self.inner.take();
         let _ = std::panic::catch_unwind(std::panic::AssertUnwindSafe(move || drop(inner)));
-        let mut b = self.ctl.m.lock().unwrap();
-        if b.open == Some(tid) {
-            b.open = None;
-        }
         self.ctl.cv.notify_all();
     }
 }
@@ -249,7 +296,7 @@ fn run_conc(storages: Vec<Arc<dyn Storage>>, reqs: &[Rq], schedule: &[(usize, i6
             continue;
         }
         // do not start a second transaction while one is open (it would only block), unless probing the lock
-        let eligible: Vec<usize> = parked.iter().cloned().filter(|t| !(b.waiting[t] == "want-begin" && b.open.is_some() && !probe_lock)).collect();
+        let eligible: Vec<usize> = parked.iter().cloned().filter(|t| !(b.waiting[t] == "want-begin" && b.open.is_some() && (!probe_lock || b.after_commit.is_some()))).collect();
         if eligible.is_empty() {
             drop(b);
             std::thread::sleep(Duration::from_millis(2));
